@@ -1396,7 +1396,9 @@ class PolarsModel(data_algebra.data_model.DataModel):
             return row
 
         rows = [extract_rows(i) for i in range(ct.shape[0])]
-        res = pl.concat(rows, how="vertical")
+        res = pl.concat(
+            rows, how="vertical_relaxed"
+        )  # value columns may differ in type
         if (blocks_out.record_keys is not None) and (len(blocks_out.record_keys) > 0):
             res = res.sort(blocks_out.record_keys + blocks_out.control_table_keys)
         else:
